@@ -399,6 +399,11 @@ class FakeSelectors:
     def DefaultSelector(self):
         return FakeSelector(self.k)
 
+    def __getattr__(self, name):
+        if name.startswith("__"):
+            raise AttributeError(name)
+        return getattr(self.__dict__["_real"], name)
+
 
 class FakeInspect:
     import inspect as _real
@@ -718,7 +723,8 @@ def install(k, net, tls=False):
     ep.replace(_selectors, fs)
     ep.replace(_selectors.DefaultSelector, fs.DefaultSelector)
     ep.replace(_socket, FakeSocketModule(net))
-    ep.replace(_inspect, FakeInspect)
+    ep.replace(_inspect, ModProxy(_inspect, stack=FakeInspect.stack))
+    ep.replace(_inspect.stack, FakeInspect.stack)
     if tls:
         ep.replace(_ssl, ModProxy(_ssl, SSLContext=FakeTLSContext, create_default_context=FakeTLSContext))
     _PATCH.append(ep)
